@@ -453,3 +453,66 @@ class SwitchPeer (object):
   def inject (self, port_no, raw):
     import pox.lib.packet as pkt
     self.switch.rx_packet(pkt.ethernet(raw), port_no, raw)
+
+
+class DirectSwitch (object):
+  """
+  A real SoftwareSwitch behind the real RecocoIOWorker + OFConnection on a
+  FakeSocket, driven synchronously (no scheduler): feed() delivers controller
+  bytes through IOWorker._do_recv -> OFConnection.read -> switch handlers;
+  what the switch sends accumulates in the worker's send buffer and is
+  returned (as raw bytes) by take_bytes().
+  """
+  _loop = None
+
+  def __init__ (self, dpid=1, ports=4, **kw):
+    import pox.core
+    if pox.core.core is None:
+      from pvm import env
+      env.make_core()
+    import pox.datapaths.switch as sw
+    import pox.lib.ioworker as iow
+    self.sw_mod = sw
+    if DirectSwitch._loop is None:
+      DirectSwitch._loop = iow.RecocoIOLoop()
+    self.loop = DirectSwitch._loop
+    self.sock = FakeSocket("dsw%d" % dpid)
+    self.worker = iow.RecocoIOWorker(self.sock)
+    self.worker.pinger = _NullPinger()
+    self.worker.on_close = lambda w: None
+    self.conn = sw.OFConnection(self.worker)
+    self.switch = sw.SoftwareSwitch(dpid, ports=ports, **kw)
+    self.switch.set_connection(self.conn)
+    self.out = []
+    self.switch.addListener(sw.DpPacketOut, self._on_out)
+    self.worker.send_buf = b""      # drop the port-status chatter of setup
+
+  def _on_out (self, e):
+    self.out.append((e.port.port_no, e.packet.pack()))
+
+  def feed (self, data):
+    self.sock.feed(data)
+    guard = 0
+    while self.sock.rx and not self.worker.closed:
+      self.worker._do_recv(self.loop)
+      guard += 1
+      if guard > 10000: raise Inconclusive("DirectSwitch.feed does not drain")
+
+  def take_bytes (self):
+    b = self.worker.send_buf
+    self.worker.send_buf = b""
+    return b
+
+  def take_out (self):
+    o = self.out; self.out = []
+    return o
+
+  def inject (self, port_no, raw):
+    import pox.lib.packet as pkt
+    self.switch.rx_packet(pkt.ethernet(raw), port_no, raw)
+
+
+class _NullPinger (object):
+  def ping (self): pass
+  def pongAll (self): pass
+  def pong_all (self): pass
